@@ -43,7 +43,7 @@ def natScheme : Scheme Nat Nat Nat := ⟨fun _ _ _ => 0, fun k i => k + i, fun k
 def backedOracle : Oracle := fun f σ =>
   if f = "utils.ParsePkScript" then parseAnswer (0 :: 0x20 :: List.replicate 32 0xab)
   else if f = "w.txStore.ExistsTx" then existsTxAnswer E.notFound (existsTx exStore exCtx.node "w1" "c1" (σ (V "vout")))
-  else if f = "w.txStore.ExistUnminedTx" then existUnminedAnswer (AMap.get exStore.pending "c1")
+  else if f = "w.txStore.ExistUnminedTx" then existUnminedAnswer E.notFound (AMap.get exStore.pending "c1")
   else if f = "strings.Split(s, \".\")" then [(Dec.splitDot [0x31, 0x2e, 0x35]).length]
   else if f = "u.String" then [(Dec.render (5 + MW.Model.Amount.perMass)).length]
   else if f = "w.ksmgr.NextAddresses" then nextAddressesAnswer (ksNextAddresses natScheme ({} : KS Nat Nat Nat) (fun _ => false) false 1 20)
